@@ -9,7 +9,7 @@ from openapi_python_client.parser.properties import (
     Schemas,
     property_from_data,
 )
-from openapi_python_client.parser.properties.schemas import get_reference_simple_name
+from openapi_python_client.parser.properties.schemas import get_reference_simple_name, parse_reference_path
 
 from .. import schema as oai
 from ..config import Config
@@ -139,7 +139,12 @@ def _resolve_reference(
     references_seen = []
     while isinstance(body, oai.Reference) and body.ref not in references_seen:
         references_seen.append(body.ref)
-        body = request_bodies.get(get_reference_simple_name(body.ref))
+        ref_path = parse_reference_path(body.ref)
+        if isinstance(ref_path, ParseError):
+            return ref_path
+        if not ref_path.startswith("/components/requestBodies/"):
+            return ParseError(detail=f"$ref to {body.ref} not allowed in request bodies", data=body)
+        body = request_bodies.get(get_reference_simple_name(ref_path))
     if isinstance(body, oai.Reference):
         return ParseError(detail="Circular $ref in request body", data=body)
     if body is None and references_seen:
